@@ -181,6 +181,20 @@ class NativeSym(object):
                     f.write(entries[rel])
         return root, bits
 
+    def symbolic_file(self, name, max_size):
+        import os
+        n = int(self._get(name, 0))
+        if not 0 <= n <= max_size:
+            self.bad_input.append(name)
+        path = os.path.join(self.scratch_dir(), name)
+        block = bytes(range(256)) * 4096
+        with open(path, "wb") as f:
+            left = n
+            while left > 0:
+                f.write(block[:min(left, len(block))])
+                left -= len(block)
+        return path, n
+
     def scratch_dir(self):
         import tempfile
         import atexit
